@@ -125,12 +125,12 @@ class IMEXRKUpdateNodes(_IMEXBase):
 
     def post(self, st, old, result, exc):
         L, M, sw, P = st.L, st.M, st.L.sweep, st.L.prob
-        dt, A, AE, c = L.dt, sw.coll.Qmat, sw.coll_explicit.Qmat, sw.coll.nodes
+        dt, A, AE, c = L.params.dt, sw.coll.Qmat, sw.coll_explicit.Qmat, sw.coll.nodes
         yield 'returns_normally', exc is None
         if exc is not None:
             return
         for m in range(M):
-            tm = L.time + dt * c[m + 1]
+            tm = L.status.time + dt * c[m + 1]
             rhs = cp(st.u0) + vsum(dt * (A[m + 1, j] * L.f[j].impl + AE[m + 1, j] * L.f[j].expl) for j in range(1, m + 1))
             rec = P.find_solve(L.u[m + 1])
             if rec is not None:
@@ -153,9 +153,9 @@ class IMEXRKUpdateNodes(_IMEXBase):
         L, M, P = st.L, st.M, st.L.prob
         if M > 1:
             rec = P.find_solve(L.u[M])
-            yield 'canary:last_stage_ignores_explicit_part', veq(rec.rhs if rec is not None else L.u[M], cp(st.u0) + vsum(L.dt * L.sweep.coll.Qmat[M, j] * L.f[j].impl for j in range(1, M)))
+            yield 'canary:last_stage_ignores_explicit_part', veq(rec.rhs if rec is not None else L.u[M], cp(st.u0) + vsum(L.params.dt * L.sweep.coll.Qmat[M, j] * L.f[j].impl for j in range(1, M)))
         else:
-            yield 'canary:stage_is_u0_plus_f', veq(L.u[1], st.u0 + L.dt * L.f[1].impl)
+            yield 'canary:stage_is_u0_plus_f', veq(L.u[1], st.u0 + L.params.dt * L.f[1].impl)
 
 
 class IMEXRKEndPoint(_IMEXBase):
@@ -181,7 +181,7 @@ class IMEXRKEndPoint(_IMEXBase):
 
     def post(self, st, old, result, exc):
         L, M, sw, inst = st.L, st.M, st.L.sweep, st.inst
-        dt = L.dt
+        dt = L.params.dt
         yield 'returns_normally', exc is None
         if exc is not None:
             return
@@ -233,10 +233,10 @@ class IMEXRKIntegrate(_IMEXBase):
         if exc is not None:
             return
         for m in range(1, M + 1):
-            yield f'row{m}', veq(result[m - 1], vsum(L.dt * (sw.coll.Qmat[m, j] * st.old_f[j].impl + sw.coll_explicit.Qmat[m, j] * st.old_f[j].expl) for j in range(1, M + 1)))
+            yield f'row{m}', veq(result[m - 1], vsum(L.params.dt * (sw.coll.Qmat[m, j] * st.old_f[j].impl + sw.coll_explicit.Qmat[m, j] * st.old_f[j].expl) for j in range(1, M + 1)))
 
     def canary(self, st, old, result, exc):
-        yield 'canary:explicit_part_with_implicit_tableau', veq(result[0], vsum(st.L.dt * st.L.sweep.coll.Qmat[1, j] * (st.old_f[j].impl + st.old_f[j].expl) for j in range(1, st.M + 1)))
+        yield 'canary:explicit_part_with_implicit_tableau', veq(result[0], vsum(st.L.params.dt * st.L.sweep.coll.Qmat[1, j] * (st.old_f[j].impl + st.old_f[j].expl) for j in range(1, st.M + 1)))
 
 
 class RKIntegrate(Contract):
@@ -277,7 +277,7 @@ class RKIntegrate(Contract):
             return
         full = (lambda f: f) if st.inst['data'] == 'mesh' else (lambda f: f.impl + f.expl)
         for m in range(1, M + 1):
-            yield f'row{m}:dtAF', veq(result[m - 1], vsum(L.dt * sw.coll.Qmat[m, j] * full(st.old_f[j]) for j in range(1, M + 1)))
+            yield f'row{m}:dtAF', veq(result[m - 1], vsum(L.params.dt * sw.coll.Qmat[m, j] * full(st.old_f[j]) for j in range(1, M + 1)))
 
     def canary(self, st, old, result, exc):
         yield 'canary:row_is_zero', veq(result[0], 0)
